@@ -10,6 +10,9 @@ Extensions over translate.py (everything else is identical):
     (translate.py accepts the early-exit form only without an else part);
   * cfg["truncate_after_if"] = <test text>: only the prefix of the function up to that top-level `if`
     is translated (the rest is a path the model does not cover and yields Raise RuntimeError);
+  * a branch that returns on SOME path is never joined: `if c: A else: B; REST` becomes `if c: A; REST else: B; REST`
+    (translate.py would bind the returned value as the joined variable); statements of the skip table bind nothing;
+    any internal error is turned into TranslateError("translation of <function> no longer matches: ...");
   * on the sentinel side of such a test X has type "sentinel" and `X.default_value` translates
     to cfg["sentinel_default"]; `.default_value` of anything else is rejected.
 
@@ -331,6 +334,8 @@ class Tr:
             if n not in out:
                 out.append(n)
         for s in stmts:
+            if ast.unparse(s) in self.cfg.get("skip", []):
+                continue   # (extension) a skipped statement binds nothing the translation can see
             if isinstance(s, ast.Assign):
                 for t in s.targets:
                     if not isinstance(t, ast.Name):
@@ -483,6 +488,15 @@ class Tr:
             f = self.block(s.orelse, env_f, lambda e: "Raise RuntimeError")
             t = self.block(list(s.body) + rest, env_t, kont)
             return self.branch(cnd, "(" + t + ")", "(" + f + ")")
+        # (extension, soundness) a `return` on SOME path of a branch must not be mistaken for the joined value:
+        # `if c: A else: B` followed by REST is translated as `if c: A; REST else: B; REST` (exact, duplicates REST)
+        def has_return(stmts):
+            return any(isinstance(n, ast.Return) for st in stmts for n in ast.walk(st)
+                       if ast.unparse(st) not in self.cfg.get("skip", []))
+        if has_return(s.body) or has_return(s.orelse):
+            t = self.block(list(s.body) + rest, env_t, kont)
+            f = self.block(list(s.orelse) + rest, env_f, kont)
+            return self.branch(cnd, "(" + t + ")", "(" + f + ")")
         # join
         names = [n for n in self.assigned(s.body) + self.assigned(s.orelse)]
         names = list(dict.fromkeys(names))
@@ -544,6 +558,8 @@ class Tr:
             if len(tys) > 1:
                 self.err(s, "branches give %s different types %s" % (n, tys))
             ty = tys.pop() if tys else None
+            if ct is None and cf is None:
+                self.err(s, "name %s is assigned in a branch but bound on neither side of the join" % n)
             maybe = (ct is None) or (cf is None) or (tyt or "").startswith("maybe:") or (tyf or "").startswith("maybe:")
             if maybe:
                 base = ty
@@ -652,7 +668,13 @@ class Tr:
 def translate_function(path, qualname, coqname, cfg):
     node, _ = find_function(path, qualname)
     tr = Tr(cfg)
-    code = tr.function(node, coqname)
+    try:
+        code = tr.function(node, coqname)
+    except TranslateError as e:
+        raise TranslateError("translation of %s no longer matches: %s" % (qualname, e))
+    except Exception as e:  # an internal error of the translator is a rejection, never a crash of the check
+        raise TranslateError("translation of %s no longer matches: the statement structure is outside the fragment "
+                             "(%s: %s)" % (qualname, type(e).__name__, e))
     missing = [s for s in cfg.get("skip", []) if s not in tr.skipped]
     if missing:
         raise TranslateError("statements assumed to be skippable are no longer present: %r" % missing)
